@@ -288,5 +288,29 @@ CLAIMS = {
         note=OPT_NOTE + "  The CLI part (exit status, files) is covered by the cli engine when built."),
 }
 
+# the regeneration tie, per property: which areas of the source are re-translated on every run and proved equal to the model
+_SRC = {
+    "C01": "shapes, cell, check_intersection / score as wholes (SrcShapes, SrcState, SourceHeadlines)",
+    "C02": "areas, cell, score as a whole (SrcShapes, SrcCell, SrcState, SourceHeadlines)",
+    "C03": "LJ energies, PotentialState::score as a whole (SrcShapes, SrcState, SourceHeadlines)",
+    "C05": "build and the loop bodies of optimise_state (SrcOpt, SourceHeadlinesOpt)",
+    "C06": "the loop bodies of optimise_state, StandardBasis's methods (SrcOpt, SourceHeadlinesOpt)",
+    "C07": "accept_score and its use in the loop (SrcOpt, CorOpt)",
+    "C08": "the declared ranges and the starting state (BasisFacts, BasisRun), clamp / sample (SrcOpt)",
+    "C09": "the order on states (SrcOrder); the stages of main.rs (GenCli)",
+    "C10": "the order on states (SrcOrder); the stages of main.rs (GenCli)",
+    "C11": "the SVG matrix entries and document loops (SvgSource)",
+    "C12": "the pair tests and shape-level intersects (SrcShapes, SourceHeadlinesShapes)",
+    "C13": "LJ2::energy, LJShape2::energy, from_trimer (SrcShapes, CorLJ)",
+    "C14": "cell sides, area, to_cartesian, periodic_images (SrcCell, SourceHeadlinesCell)",
+    "C15": "the wrap, positions, the position pipelines (SrcCell, SrcState, SourceHeadlinesCell)",
+    "C17": "the character step, splitting and dimension check of from_operations (ParseSource)",
+    "C18": "build, the cooling in the loop tail (SrcOpt, SourceHeadlinesOpt); the stages of main.rs (GenCli)",
+    "C19": "the step-ratio update and its use in the proposal (SrcOpt, StepFacts); the stages of main.rs (GenCli)",
+    "C20": "the loop ranges, the convergence block, the final assertion (SrcOpt, SourceHeadlinesOpt); the stages of main.rs (GenCli)",
+}
+for _p, _t in _SRC.items():
+    CLAIMS[_p]["technique"] += " + regeneration: " + _t + " re-translated from the source text on every run and proved equal to the model"
+
 _NOT_YET = "not claimed yet: the model/theorems/engine for this property are still being built (see DESIGN.md section 7)"
 NOT_APPLICABLE = {}
